@@ -25,7 +25,8 @@ def cfg : Cfg :=
     win := winCfg
     broadcastAssigned := Gen.C20.winBroadcastAssigned
     sunosPid0Named := Gen.C20.sunosPid0AdNamed
-    winMapsLoopGuarded := Gen.C20.winMapsLoopGuarded }
+    winMapsLoopGuarded := Gen.C20.winMapsLoopGuarded
+    winIdentFastOnly := Gen.C20.winIdentFastOnly }
 
 /-- the generated per-platform method list -/
 def methodsOf (p : Platform) : List Method :=
